@@ -622,7 +622,7 @@ class Comparator:
         # attribution by experiment: does separating operand and '(' by a blank repair it?
         if _TIGHT_GROUP.search(s):
             alt = _TIGHT_GROUP.sub(" (", s)
-            g2, _, _ = self.watch.run(env.ureg.parse_expression, alt)
+            g2, _, _ = self.watch.run(env.ureg.parse_expression, alt, limit=3.0)
             if g2[0] in ("ok", "err") and outcome_diff(g2, want, Q) in (None, "rounding"):
                 wit["repaired_by_blank_before_parenthesis"] = alt
                 wit["kind"] = kind
